@@ -4,7 +4,7 @@ target (as adjusted by grow/shrink), no worker is created at or above it,
 slot indices distinct; the consumed-result counter each worker waits on before
 a recycle exit is credited for exactly its own results; no job lost/failed
 because a worker recycled.  Lanes REAL / L3 (vmon.real_c09): per-pid execution
-counts under a quota, exit statuses, latency, memory-limit exits."""
+counts under a quota, exit statuses, latency, memory-limit exits.  Long chunked map / imap jobs on a recycling pool still running long after the workers that answered their first chunks left on schedule."""
 from vmon import simcheck
 
 PROPERTY = 'C09'
